@@ -14,7 +14,7 @@ LEVEL = 'exploration'
 RULE = ('case = (body: random bytes | well-formed multipart from the harness encoder with 0-4 grammar mutations {drop / duplicate a delimiter, remove the '
         'closing delimiter, truncate at any offset, break a header line: non-UTF-8 bytes, no colon, no name parameter, empty value, empty block, stray '
         'quote / semicolon, runs of 40-3000 backslashes / quotes / semicolons / blanks inside a parameter, one control byte at marked positions of a header line; bare CR / LF, non-UTF-8 text value, byte insert / replace / delete, junk preamble} | JSON: valid, invalid, non-object, nested '
-        '10..100000 levels, non-UTF-8, BOM, empty | urlencoded text incl. stray % and non-ASCII bytes) x content type (matching / mismatching / missing '
+        '10..100000 levels, non-UTF-8, BOM, empty | urlencoded text incl. stray % and non-ASCII bytes, 50-8000 fields / separators; parts that declare their own charset (known, unknown, non-text codecs, malformed labels), transfer encoding or length) x content type (matching / mismatching / missing '
         'boundary, multipart/mixed, JSON with parameters, upper case, none) x framing (Content-Length equal / short / long, chunked, truncated or corrupted '
         'chunked) x max_memfile_size in {8..102400} x accessor sequence over {forms, files, POST, params, json, body, query}. Oracle: nothing escapes, status '
         'is 2xx or 4xx, nothing is written to wsgi.errors, the request finishes under a 10 s watchdog; every delivered text value / file content D occurs '
@@ -36,13 +36,19 @@ def wellformed(draw, boundary):
         tok = b'\r\n--' + boundary.encode()
         if tok in b'\r\n' + val:
             val = val.replace(b'-', b'_')
+        pct = draw(st.one_of(st.sampled_from([None, None, 'text/plain']), st.sampled_from(CHARSETS).map(lambda c: 'text/plain; charset=' + c)))
         if draw(st.booleans()):
-            parts.append({'name': name, 'filename': draw(st.sampled_from(['x.txt', 'a;b.bin', 'é'])), 'ctype': draw(st.sampled_from([None, 'text/plain'])), 'value': val})
+            parts.append({'name': name, 'filename': draw(st.sampled_from(['x.txt', 'a;b.bin', 'é'])), 'ctype': pct, 'value': val})
         else:
-            parts.append({'name': name, 'value': val})
+            parts.append({'name': name, 'value': val, 'ctype': pct,
+                          'extra_headers': draw(st.sampled_from([None, None, [('Content-Transfer-Encoding', 'base64')], [('Content-Length', '3')], [('content-type', 'text/x; charset=nope')]]))})
     body, truth = encode_multipart(boundary, parts, draw(st.sampled_from([b'', b'', b'\r\n'])), draw(st.sampled_from([b'', b'\r\n', b'\r\nepilogue'])))
     return body, truth
 
+
+# charset labels a part may declare for itself: known, aliases, unknown, non-text codecs, malformed
+CHARSETS = ['utf-8', 'UTF8', 'ISO-8859-1', 'latin-1', 'cp1252', 'utf-16', 'utf-7', 'ascii', 'x-user-defined', 'klingon', 'utf-8-bogus', 'base64', 'hex', 'rot13', 'zlib', 'bz2',
+            'quopri', 'uu', 'idna', 'punycode', 'unicode_escape', 'undefined', 'mbcs', '', '"utf-8"', '"', 'utf-8; x=1', 'a' * 300, '\xe9', 'utf 8', '%00', '../x']
 
 MUTS = ['hdr_ctl', 'hdr_ctl', 'hdr_run', 'hdr_run', 'drop_delim', 'dup_delim', 'no_close', 'truncate', 'hdr_nonutf8', 'hdr_nocolon', 'hdr_noname', 'hdr_emptyval', 'hdr_emptyblock', 'hdr_quote', 'bare_cr', 'bare_lf',
         'insert', 'replace', 'delete', 'preamble', 'hdr_only_name', 'lf_only', 'swap_halves']
@@ -117,7 +123,9 @@ JSONS = st.one_of(
     st.binary(max_size=20),
     st.recursive(st.one_of(st.none(), st.booleans(), st.integers(), st.text(max_size=5)), lambda c: st.lists(c, max_size=3) | st.dictionaries(st.text(max_size=3), c, max_size=3),
                  max_leaves=6).map(lambda v: json.dumps(v).encode()))
-URLENC = st.one_of(st.binary(max_size=30), st.text(st.sampled_from(list('ab=&%+;1 é')), max_size=20).map(lambda s: s.encode('utf8')),
+MANY = st.builds(lambda n, shape: b'&'.join(shape % (i, i) for i in range(n)) if b'%d' in shape else shape * n, st.sampled_from([50, 999, 1000, 1001, 1002, 2500, 8000]),
+                 st.sampled_from([b'f%d=v%d', b'f%d=%d', b'%d=%d', b'&', b'a=1&', b';', b'a&', b'=&', b'%41=%42&']))
+URLENC = st.one_of(MANY, st.binary(max_size=30), st.text(st.sampled_from(list('ab=&%+;1 é')), max_size=20).map(lambda s: s.encode('utf8')),
                    st.sampled_from([b'a=1&b=2', b'%', b'%zz=%', b'a=%ff', b'&&&', b'=', b'a' * 300 + b'=1', b'\xff=\xfe']))
 ACCESS = st.lists(st.sampled_from(['forms', 'files', 'POST', 'params', 'json', 'body', 'query', 'forms', 'POST', 'files']), min_size=1, max_size=3)
 
@@ -154,7 +162,7 @@ def case_st(draw):
     framing = draw(st.sampled_from(['length', 'length', 'length', 'short', 'long', 'chunked', 'chunked', 'chunked_trunc', 'chunked_corrupt', 'none']))
     return {'family': fam, 'body': body, 'ctype': ct, 'boundary': boundary, 'mutations': muts, 'framing': framing,
             'fr_a': draw(st.integers(0, 300)), 'fr_b': draw(st.integers(0, 255)), 'chunks': draw(st.lists(st.integers(1, 40), max_size=4)),
-            'B': draw(st.sampled_from([8, 16, 64, 64, 1000, 102400, 102400])), 'access': draw(ACCESS),
+            'B': draw(st.sampled_from([8, 16, 64, 64, 1000, 102400, 102400])) if len(body) < 3000 else 102400, 'access': draw(ACCESS),
             'pattern': draw(st.one_of(st.just([]), st.lists(st.integers(1, 9), min_size=1, max_size=4))), 'method': draw(st.sampled_from(['POST', 'PUT', 'POST', 'GET']))}
 
 
@@ -201,6 +209,13 @@ def frame_body(case):
 def boundary_of(ctype):
     m = re.search(r'boundary=([^;]*)', ctype)
     return m.group(1) if m else None
+
+
+def _enc(text, cs):
+    try:
+        return text.encode(cs)
+    except UnicodeError:
+        return None
 
 
 def check_case(ctx, case):
@@ -260,9 +275,10 @@ def check_case(ctx, case):
                         if it is None:
                             ctx.count('delivered_value_is_None(empty filename part)')      # no data delivered: nothing to judge
                             continue
-                        D = it.encode('utf8') if isinstance(it, str) else it[2]
-                        needle = b'\r\n\r\n' + D + b'\r\n--' + (bnd or '').encode('latin1')
-                        if bnd is None or needle not in logical:
+                        # a text value is judged in UTF-8 or in any charset the part may have declared for itself
+                        Ds = [it[2]] if not isinstance(it, str) else [e for e in (_enc(it, cs) for cs in ('utf8', 'latin-1', 'cp1252', 'utf-16-le', 'utf-16-be', 'utf-16', 'utf-7', 'ascii')) if e is not None]
+                        D = Ds[0]
+                        if bnd is None or not any(b'\r\n\r\n' + d + b'\r\n--' + bnd.encode('latin1') in logical for d in Ds):
                             raise CheckFailure(f'delivered field {k!r} = {D[:80]!r} is not the complete data of a delimiter-terminated part of the body: {what}')
                         ctx.count('delivered_fields_checked')
             if acc == 'json' and case['ctype'].lower().split(';')[0].strip() == 'application/json' and logical:
@@ -377,6 +393,34 @@ def run(ctx):
                         ctx.guarded(check_case, {'family': 'json', 'body': doc, 'ctype': ct, 'boundary': 'b', 'mutations': [], 'framing': fr, 'fr_a': 0, 'fr_b': 1,
                                                  'chunks': [4000], 'B': 102400, 'access': acc, 'pattern': [], 'method': 'POST'})
         ctx.count('json_grid')
+        # size dimension: N fields / N parts for N around every power of ten and just above 1000, all form accessors, both framings
+        for N in (1, 10, 100, 999, 1000, 1001, 1002, 1500, 5000, 20000):
+            bodies = [('urlencoded', b'&'.join(b'f%d=v%d' % (i, i) for i in range(N)), 'application/x-www-form-urlencoded'),
+                      ('urlencoded', b'&'.join(b'f=%d' % i for i in range(N)), ''),
+                      ('urlencoded', b'&' * N + b'a=1', 'text/plain')]
+            if N <= 5000:
+                bd, _ = encode_multipart('bnd', [{'name': 'f%d' % i, 'value': b'v'} for i in range(N)], b'', b'\r\n')
+                bodies.append(('multipart', bd, 'multipart/form-data; boundary=bnd'))
+                bd, _ = encode_multipart('bnd', [{'name': 'f', 'filename': 'u%d' % i, 'value': b'v'} for i in range(N)], b'', b'\r\n')
+                bodies.append(('multipart', bd, 'multipart/form-data; boundary=bnd'))
+            for fam, bd, ct in bodies:
+                for acc in (['forms'], ['POST'], ['files'], ['params']):
+                    for fr in ('length', 'chunked'):
+                        ctx.guarded(check_case, {'family': fam, 'body': bd, 'ctype': ct, 'boundary': 'bnd', 'mutations': [['many_fields', N, 0]], 'framing': fr, 'fr_a': 0, 'fr_b': 1,
+                                                 'chunks': [4000], 'B': 1 << 20, 'access': acc, 'pattern': [], 'method': 'POST'})
+        ctx.count('field_count_grid')
+        # a part that declares its own charset: every label x text / file part x ASCII / non-ASCII / empty data
+        for cs in CHARSETS:
+            for fn in (None, 'x.bin'):
+                for val in (b'abc', 'é'.encode(), b'\xff\xfe', b'', b'YWJj'):
+                    for hname in ('Content-Type', 'content-type', 'CONTENT-TYPE'):
+                        p0 = {'name': 'a', 'value': val, 'extra_headers': [(hname, 'text/plain; charset=' + cs)]}
+                        if fn:
+                            p0['filename'] = fn
+                        bd, _ = encode_multipart('bnd', [p0, {'name': 'b', 'value': b'tail'}], b'', b'\r\n')
+                        ctx.guarded(check_case, {'family': 'multipart', 'body': bd, 'ctype': 'multipart/form-data; boundary=bnd', 'boundary': 'bnd', 'mutations': [['part_charset', 0, 0]],
+                                                 'framing': 'length', 'fr_a': 0, 'fr_b': 1, 'chunks': [], 'B': 102400, 'access': ['POST', 'forms', 'files'], 'pattern': [], 'method': 'POST'})
+        ctx.count('part_charset_grid')
     n = 4000 if ctx.tier == 'quick' else 40000
     ctx.hyp(case_st(), check_case, n)
     if ctx.tier == 'thorough' and ctx.shard < 4:
